@@ -346,6 +346,35 @@ func manyElems(n int) string {
 	return sb.String()
 }
 
+// manyMapElems: a map literal of n entries whose values are not constants
+// (the constant pool would fill first otherwise): the MAP operand counts keys
+// and values, 2n, in two bytes.
+func manyMapElems(n int, val string) string {
+	var sb strings.Builder
+	sb.WriteString("m := {")
+	for i := 0; i < n; i++ {
+		if i > 0 {
+			sb.WriteString(",")
+		}
+		fmt.Fprintf(&sb, "k%d:%s", i, val)
+	}
+	sb.WriteString("}\nr := len(m)\n")
+	return sb.String()
+}
+
+func manyElemsOf(n int, val string) string {
+	var sb strings.Builder
+	sb.WriteString("a := [")
+	for i := 0; i < n; i++ {
+		if i > 0 {
+			sb.WriteString(",")
+		}
+		sb.WriteString(val)
+	}
+	sb.WriteString("]\nr := len(a)\n")
+	return sb.String()
+}
+
 func manySelectors(n int) string {
 	var sb strings.Builder
 	sb.WriteString("m := {}\nm")
@@ -463,6 +492,15 @@ func TestLimitBoundaries(t *testing.T) {
 	}
 	for _, n := range []int{65534, 65535, 65536, 65537} {
 		cases = append(cases, bc{name: fmt.Sprintf("elems-%d", n), src: manyElems(n), run: false})
+	}
+	for _, n := range []int{32766, 32767, 32768, 32769, 40000, 65535, 65536} {
+		cases = append(cases, bc{name: fmt.Sprintf("mapelems-%d", n), src: manyMapElems(n, "true"), run: false})
+	}
+	for _, n := range []int{16383, 16384, 32767, 32768} {
+		cases = append(cases, bc{name: fmt.Sprintf("mapelems-const-%d", n), src: manyMapElems(n, "1"), run: false})
+	}
+	for _, n := range []int{65535, 65536, 65537} {
+		cases = append(cases, bc{name: fmt.Sprintf("elems-nonconst-%d", n), src: manyElemsOf(n, "undefined"), run: false})
 	}
 	for _, n := range []int{1000, 1022, 1023, 1024, 1025, 1100} {
 		cases = append(cases, bc{name: fmt.Sprintf("globals-%d", n), src: manyGlobals(n), run: n <= 1023})
